@@ -100,6 +100,7 @@ class Ctx:
         self.clauses: dict[str, int] = {}
         self.features: dict[str, int] = {}
         self.samples: list = []
+        self._fallback_sample = None
         self._sample_tags: set[str] = set()
         self.violations: list[dict] = []
         self._viol_per_key: dict[str, int] = {}
@@ -130,6 +131,13 @@ class Ctx:
 
     def case(self, canon, nontrivial=True, features=()):
         self.evaluations += 1
+        if self._fallback_sample is None and not self.samples:
+            # a property module that never calls sample() still shows one actual case (cut to a readable size)
+            try:
+                txt = json.dumps(jsonable(canon))
+                self._fallback_sample = json.loads(txt) if len(txt) <= 3000 else {"case (truncated)": txt[:3000]}
+            except Exception:
+                self._fallback_sample = {"case (repr)": repr(canon)[:3000]}
         if nontrivial:
             self.digests.add(digest64(canon))
         for f in features:
@@ -192,7 +200,7 @@ class Ctx:
             "sets": {k: sorted(v) for k, v in self.sets.items()},
             "clauses": self.clauses,
             "features": self.features,
-            "samples": self.samples,
+            "samples": self.samples or ([self._fallback_sample] if self._fallback_sample is not None else []),
             "violations": self.violations,
             "viol_counts": self.viol_counts,
             "notes": self.notes,
